@@ -383,6 +383,7 @@ type Oblig struct {
 	Bounded   string
 	replayed  bool
 	paramIn   map[string]*Term
+	Retried   bool // discharged only in the sequential retry with the larger budget
 	Candidate bool // Model is a candidate from a weakened query (to be confirmed by replay)
 }
 
